@@ -26,7 +26,7 @@ CLAIMED = {
     },
     "C08": {
         "engine": "E6 vguard + E8 witness",
-        "technique": "static analysis: who-may-construct + dominance of acceptance by the root comparison and dependence of the recomputed root on the queried key; scope-predicate dependence of confirm_*; error-variant raise-site inventory; iterator-provenance of the loops that raise scope/order errors (whole input collection); whole-leaf comparison in confirm_value*; compile-fail witnesses",
+        "technique": "static analysis: who-may-construct + dominance of acceptance by the root comparison and dependence of the recomputed root on the queried key; scope-predicate dependence of confirm_*; error-variant raise-site inventory; iterator-provenance of the loops that raise scope/order errors (whole input collection); whole-leaf comparison in confirm_value*; value-leaf equality of sibling count and bit-range length at every hash_path call; compile-fail witnesses",
         "text": "Thin structural claim: Verified* objects are constructible only behind the root-equality check, every confirm_* result depends on a scope predicate, every documented rejection reason has a raising site on the verifier's path, the loops raising scope/order errors iterate the whole input collection (no skip/take/chunks), and confirm_value* compares the whole leaf (key path and value hash). Does not decide that the comparisons are the right ones nor hashing correctness.",
         "design_ref": "DESIGN.md 4 (E6, E8), 5 (C08)",
         "note": _NOTE,
@@ -68,8 +68,8 @@ CLAIMED = {
     },
     "C17": {
         "engine": "E1 syncorder (W rules)",
-        "technique": "static analysis: who-may-write-which-file table over MIR + provenance scoping of page numbers + post-meta ordering",
-        "text": "Write discipline: every write/resize/unlink/create site sits in the function allowed for its file class; ln/bbn page writers can only obtain page numbers from the allocator; HT/segment destructive operations start only post-meta; free-list mutators callable only from the finisher; segment files opened append-only. Free-list arithmetic is not decided.",
+        "technique": "static analysis: who-may-write-which-file table over MIR + provenance scoping of page numbers (writers take them from the allocator; the allocator takes them from the old free list or beyond the old bump) + post-meta ordering",
+        "text": "Write discipline: every write/resize/unlink/create site sits in the function allowed for its file class; ln/bbn page writers can only obtain page numbers from the allocator, which hands out only pages of the previous free list or beyond the previous bump; HT/segment destructive operations start only post-meta; free-list mutators callable only from the finisher; segment files opened append-only. Free-list arithmetic is not decided.",
         "design_ref": "DESIGN.md 4 (E1 W-rules), 5 (C17)",
         "note": _NOTE,
     },
